@@ -338,3 +338,103 @@ def refusal_static_methods(same_name: bool, named: bool, as_arg: bool, via_clone
         finally:
             prog.close()
             sb.close()
+
+
+# ------------------------------------------------------------------------------------------------
+# names that are undefined when the closure is first computed and get bound later
+# ------------------------------------------------------------------------------------------------
+
+LATE_FORMS = ["bare-global", "module-attribute", "instance-attribute", "class-attribute"]
+LATE_TARGETS = ["existing-memento-function", "existing-plain-function-calling-a-memento-function", "new-memento-function"]
+LATE_SRC = (
+    "import types\n"
+    "helpers = types.ModuleType('vplatehelpers')\n"
+    "class Box:\n    pass\n"
+    "box = Box()\n"
+    "@m.memento_function\n"
+    "def leaf(x):\n    _trace.append(('leaf', x)); return x + 1\n"
+    "def via_plain(x):\n    return leaf(x) + 1\n"
+    "@m.memento_function\n"
+    "def f(x):\n"
+    "    _trace.append(('f', x))\n"
+    "    return %s(x)\n"
+)
+
+
+@obligation(
+    "C14.late_binding",
+    covers=("closure-computed-before-the-name-was-bound", "bound-without-defining-anything"),
+    split={"form": list(range(len(LATE_FORMS)))},
+    bounds="f calls a name that is undefined when f is defined - a bare global, an attribute of a module object, of an instance (own "
+           "namespace) or of its class - and the name is bound afterwards to an existing memento function (an alias: nothing new is "
+           "defined), to an existing plain function that calls one, or to a newly defined memento function; f's closure / version are "
+           "queried before the binding or not; f is invoked directly or through a force_local() clone: afterwards the closure contains "
+           "the target, the call is not refused, and version and closure equal those of a program defined with the binding in place",
+    variables="choice: form, target kind, queried-before bit, clone bit",
+    budget_s={"quick": 120, "thorough": 300},
+    choice_vars=4,
+)
+def late_binding(form: int, target: int, queried: bool, via_clone: bool):
+    target = pick(target, len(LATE_TARGETS))
+    q = True if queried else False
+    vc = True if via_clone else False
+    with concrete_region():
+        from vp.memenv import clear_process_state
+
+        callee = ["late", "helpers.late", "box.late", "box.late"][form]
+        bind = {
+            0: "late = %s\n", 1: "helpers.late = %s\n", 2: "box.late = %s\n", 3: "Box.late = staticmethod(%s)\n",
+        }[form]
+        tkind = LATE_TARGETS[target]
+        new_def = "@m.memento_function\ndef fresh_leaf(x):\n    _trace.append(('fresh_leaf', x)); return x + 2\n"
+        value = {"existing-memento-function": "leaf", "existing-plain-function-calling-a-memento-function": "via_plain",
+                 "new-memento-function": "fresh_leaf"}[tkind]
+        want_names = {"existing-memento-function": ["leaf"], "existing-plain-function-calling-a-memento-function": ["leaf"],
+                      "new-memento-function": ["fresh_leaf"]}[tkind]
+
+        def closure(fn):
+            return sorted(_name(d) for d in fn.dependencies().transitive_memento_fn_dependencies())
+
+        # reference: the same program with the binding in place from the start
+        sb = Sandbox(kinds="memory")
+        clear_process_state()
+        prog = Program(MOD)
+        try:
+            head, tail = (LATE_SRC % callee).split("@m.memento_function\ndef f(x)")
+            prog.exec(head + (new_def if tkind == "new-memento-function" else "") + (bind % value) + "@m.memento_function\ndef f(x)" + tail)
+            ref_closure, ref_version = closure(prog.f), prog.f.version()
+            check("reference-closure-contains-the-target", all(n_ in ref_closure for n_ in want_names), (ref_closure, want_names))
+        finally:
+            prog.close()
+            sb.close()
+        sb = Sandbox(kinds="memory")
+        clear_process_state()
+        prog = Program(MOD)
+        try:
+            prog.exec(LATE_SRC % callee)
+            f = prog.f
+            if q:
+                cover("closure-computed-before-the-name-was-bound")
+                c0 = closure(f)
+                f.version()
+                check("target-not-in-the-closure-while-the-name-is-unbound", not any(n_ in c0 for n_ in want_names), c0)
+            if tkind == "new-memento-function":
+                prog.exec(new_def)
+            else:
+                cover("bound-without-defining-anything")
+            prog.exec(bind % value)
+            got_closure = closure(f)
+            check("closure-contains-the-late-bound-target", all(n_ in got_closure for n_ in want_names), (got_closure, want_names, callee, tkind, q))
+            check("closure-equals-that-of-the-program-defined-with-the-binding", got_closure == ref_closure, (got_closure, ref_closure))
+            check("version-equals-that-of-the-program-defined-with-the-binding", f.version() == ref_version, (f.version(), ref_version, callee, tkind, q))
+            root = f.force_local() if vc else f
+            try:
+                r = root(1)
+                outcome = "result"
+            except UndeclaredDependencyError:
+                r, outcome = None, "refused"
+            check("call-to-the-late-bound-target-is-not-refused", outcome == "result", (callee, tkind, q, vc))
+            check("result", r == {"leaf": 2, "via_plain": 3, "fresh_leaf": 3}[value], r)
+        finally:
+            prog.close()
+            sb.close()
